@@ -38,8 +38,8 @@ CLAIMS = {
             "Generated function tables and call trees with recorded structure; soundness (whatever is returned is the innermost enclosing known call with fixed++variadic parameters and the comma-count active index, none beyond the parameters) on all inputs incl. half-typed prefixes, completeness on parse-clean text.",
             "4/C20", TRUST + " Don't-care positions: cursor exactly at the opening parenthesis; calls with an empty argument slot."),
     "C14": ("property-based testing (rapid) against a reference outline built from the parser's AST; workspace query over generated path sets with unreadable paths",
-            "Generated worlds (with and without schema, unreadable paths, edits) and query strings; the expected outline is computed by the harness from HCL's AST and compared node by node with SymbolsInFile, and filtered/concatenated for Decoder.Symbols.",
-            "4/C14", TRUST + " JSON files are exercised by C19 rather than here."),
+            "Generated worlds (with and without schema, unreadable paths, edits) and query strings, and in 25% of cases a structured configuration rendered as HCL JSON under a schema; the expected outline is computed by the harness from HCL's AST and compared node by node with SymbolsInFile, and filtered/concatenated for Decoder.Symbols.",
+            "4/C14", TRUST + " JSON files (with schema) are judged through the workspace query, the only entry point that serves them (SymbolsInFile rejects JSON with an error value by design): names, nesting, JSON source order, ranges inside the file and inside the parent; what JSON expressions yield as nested symbols is not judged."),
     "C15": ("property-based testing (rapid) against a reference diagnostics model (effective schema computed on the serialisable model; injected violations at any depth)",
             "Generated schemas and configurations with injected violations; the expected multiset of (severity, summary, subject) is computed by a reference model written from the statement over the model schema (own dependent-body selection and overlay) and the parser's AST, and compared with ValidateFile / Validate.",
             "4/C15", TRUST + " Regions the statement leaves open (dynamic blocks, null/unknown key values, ambiguous two-level keys) are excluded from both sides and counted."),
